@@ -1,0 +1,77 @@
+//go:build verif
+
+package compiler
+
+// Machine-checked contracts for abort-check placement (see /verif/DESIGN.md, C33).
+// This file contains no declarations: it only carries specification comments
+// that the elkvc verification-condition generator reads.
+
+/*@
+// ---- no back edge without an abort check --------------------------------------------------------
+// In abort-check mode (the REPL) a program can only be cancelled where the compiler put a
+// CHECK_ABORT instruction.  Every instruction that jumps BACK into a user-written loop must
+// therefore be directly preceded by one: the emitter records the last opcode, so "the
+// instruction just before this back edge is CHECK_ABORT" is a statement about c.lastOpCode at
+// the point where the back edge is emitted.  Checked as call-site assertions in each function
+// that closes a loop, and for `continue`, whose jump may be patched into a backward LOOP.
+// (Exempt, by not being listed: the bounded rest-pattern loop of listOrTuplePattern, which
+// runs len(list) times, and emitFinalReturn's LOOP back to STOP_ITERATION, which returns to the
+// caller on every pass.)
+func (*BytecodeCompiler).compileLoopExpressionNode
+  props C33
+  nosafety
+  partial
+  requires wfC(c)
+  assert before emitLoop#1: c.additionalAbortChecks ==> c.lastOpCode == bytecode.CHECK_ABORT
+
+func (*BytecodeCompiler).compileWhileExpressionNode
+  props C33
+  nosafety
+  partial
+  requires wfC(c)
+  assert before emitLoop#1: c.additionalAbortChecks ==> c.lastOpCode == bytecode.CHECK_ABORT
+
+func (*BytecodeCompiler).modifierWhileExpression
+  props C33
+  nosafety
+  partial
+  requires wfC(c)
+  assert before emitLoop#1: c.additionalAbortChecks ==> c.lastOpCode == bytecode.CHECK_ABORT
+
+func (*BytecodeCompiler).modifierUntilExpression
+  props C33
+  nosafety
+  partial
+  requires wfC(c)
+  assert before emitLoop#1: c.additionalAbortChecks ==> c.lastOpCode == bytecode.CHECK_ABORT
+
+func (*BytecodeCompiler).compileUntilExpressionNode
+  props C33
+  nosafety
+  partial
+  requires wfC(c)
+  assert before emitLoop#1: c.additionalAbortChecks ==> c.lastOpCode == bytecode.CHECK_ABORT
+
+func (*BytecodeCompiler).compileForIn
+  props C33
+  nosafety
+  partial
+  requires wfC(c)
+  assert before emitLoop#1: c.additionalAbortChecks ==> c.lastOpCode == bytecode.CHECK_ABORT
+
+func (*BytecodeCompiler).compileNumericFor
+  props C33
+  nosafety
+  partial
+  requires wfC(c)
+  assert before emitLoop#1: c.additionalAbortChecks ==> c.lastOpCode == bytecode.CHECK_ABORT
+
+// `continue`: the jump is emitted with the LOOP opcode and later patched into LOOP (backward) or
+// JUMP (forward) by patchLoopJumps; when it goes backward it IS a back edge
+func (*BytecodeCompiler).compileContinueExpressionNode
+  props C33
+  nosafety
+  partial
+  requires wfC(c)
+  assert before emitJump#1: c.additionalAbortChecks ==> c.lastOpCode == bytecode.CHECK_ABORT
+@*/
